@@ -52,8 +52,9 @@ def main():
         if r.violation:
             model_viol.append((k, num, den, r.violation))
     # (2) model -> code
-    plans = [(2, [1, 2, 3, 4], 1, 4, 3), (3, [2, 3], 1, 2, 2)] if tier == "quick" else \
-            [(2, [1, 2, 3], 1, 4, 4), (2, [1, 2, 3, 4], 1, 2, 3), (3, [2, 3], 1, 4, 3)]
+    # K = 4 and 6: plurality and strict majority (and ties between Buy and Sell) only differ from 4 voters on
+    plans = [(2, [1, 2, 3, 4], 1, 4, 3), (3, [2, 3], 1, 2, 2), (4, [2, 3], 1, 2, 1), (6, [2], 1, 2, 1)] if tier == "quick" else \
+            [(2, [1, 2, 3], 1, 4, 4), (2, [1, 2, 3, 4], 1, 2, 3), (3, [2, 3], 1, 4, 3), (4, [2, 3], 1, 2, 2), (5, [2], 1, 2, 1), (6, [2], 1, 2, 1)]
     nh = 0
     checks = 0
     samples = []
@@ -125,7 +126,7 @@ def main():
     vlib.write_evidence(PID, "model_checking", {
         "states": states, "transitions": trans, "traces_validated_against_impl": nh + ntr,
         "samples": samples or [{"note": "none"}], "evaluations": checks, "distinct_nontrivial": nh,
-        "rule": "model->code: every word of (sub-actions, close) steps up to the depth bound for K=2 and K=3 wrapped strategies, "
+        "rule": "model->code: every word of (sub-actions, close) steps up to the depth bound for K=2..6 wrapped strategies, "
                 "replayed on the real And/Or/Majority/Split/Inverse/NoLoss/StopLoss/NoLoss(StopLoss) around scripted stubs; "
                 "code->model: %d random words of length %d and %d MACD-RSI runs validated by TLC; every history is non-trivial "
                 "(each step changes some standing recommendation or position)" % (nt, ln, nt),
